@@ -47,6 +47,7 @@ def ensure_pool(keydir, names):
     from cryptography.x509.oid import NameOID
     os.makedirs(keydir, exist_ok=True)
     keys = {}
+    generated = []
 
     def key(name, bits):
         if name in keys:
@@ -56,6 +57,7 @@ def ensure_pool(keydir, names):
             k = serialization.load_pem_private_key(open(p, "rb").read(), None)
         else:
             k = rsa.generate_private_key(public_exponent=65537, key_size=bits)
+            generated.append(os.path.basename(p))
             with open(p + ".tmp", "wb") as f:
                 f.write(k.private_bytes(serialization.Encoding.PEM, serialization.PrivateFormat.PKCS8, serialization.NoEncryption()))
             os.replace(p + ".tmp", p)
@@ -79,6 +81,7 @@ def ensure_pool(keydir, names):
                      .not_valid_after(datetime.datetime(2040, 1, 1))
                      .add_extension(x509.BasicConstraints(ca=ca, path_length=None), critical=True))
                 cert = b.sign(ik, hashes.SHA256())
+                generated.append(os.path.basename(p))
                 with open(p + ".tmp", "wb") as f:
                     f.write(cert.public_bytes(serialization.Encoding.DER))
                 os.replace(p + ".tmp", p)
@@ -87,6 +90,7 @@ def ensure_pool(keydir, names):
         pub = leaf_k.public_key().public_numbers()
         out[cn] = {"ders": ders, "derfiles": [os.path.join(keydir, f"{cn}_{i}.der") for i in range(len(spec))], "keyfile": os.path.join(keydir, f"{spec[-1][0]}_{spec[-1][1]}.pem"),
                    "n": pub.n, "e": pub.e, "leaf_bits": spec[-1][1], "root_bits": spec[0][1]}
+    out["__generated__"] = generated
     return out
 
 
@@ -206,8 +210,20 @@ def handler(payload):
     from spsdk.sbfile.sb2.sections import BootSectionV2
     from spsdk.utils.crypto.cert_blocks import CertBlockV1
 
-    pool = ensure_pool(payload["keydir"], payload.get("need_chains", []))
-    sps = {}
+    # key / certificate material and signature providers are harness set-up: a failure here is reported as such
+    try:
+        pool = ensure_pool(payload["keydir"], payload.get("need_chains", []))
+    except Exception as ex:  # noqa
+        return {"harness_error": f"key / certificate pool: {type(ex).__name__}: {ex}", "results": [], "chains": {}}
+    generated = pool.pop("__generated__", [])
+    sps, setup_errors = {}, {}
+
+    def provider(ch_name):
+        """Signature provider for the chain's signing key (set-up, not the code under test)."""
+        ch = pool[ch_name]
+        if ch["keyfile"] not in sps:
+            sps[ch["keyfile"]] = PlainFileSP(ch["keyfile"])
+        return sps[ch["keyfile"]]
 
     def build(case):
         secs = []
@@ -229,9 +245,7 @@ def handler(payload):
         for c in certs:
             cb.add_certificate(c)
         img.cert_block = cb
-        if ch["keyfile"] not in sps:
-            sps[ch["keyfile"]] = PlainFileSP(ch["keyfile"])
-        img.signature_provider = sps[ch["keyfile"]]
+        img.signature_provider = provider(case["chain"])
         keep_img["img"] = img
         data = img.export()
         return img, data
@@ -246,9 +260,7 @@ def handler(payload):
                   "containerKeyBlobEncryptionKey": case["kek"],
                   "sections": [{"section_id": i, "commands": [cfg_cmd(c, workdir, counter) for c in s["cmds"]]}
                                for i, s in enumerate(case["secs"])]}
-        if ch["keyfile"] not in sps:
-            sps[ch["keyfile"]] = PlainFileSP(ch["keyfile"])
-        img = BootImageV21.load_from_config(config, signature_provider=sps[ch["keyfile"]],
+        img = BootImageV21.load_from_config(config, signature_provider=provider(case["chain"]),
                                             signing_certificate_file_paths=list(ch["derfiles"]),
                                             root_key_certificate_paths=[ch["derfiles"][0]],
                                             rkth_out_path=os.path.join(workdir, "hash.bin"), search_paths=[workdir])
@@ -265,6 +277,11 @@ def handler(payload):
         o = op["op"]
         if o in ("build", "build_cfg"):
             keep_img.clear()
+            try:        # set-up outside the guarded region
+                provider(op["case"]["chain"])
+            except Exception as ex:  # noqa
+                out.append({"harness_error": f"signature provider for chain {op['case']['chain']}: {type(ex).__name__}: {ex}"})
+                continue
 
             def go():
                 if o == "build":
@@ -346,7 +363,7 @@ def handler(payload):
             out.append(res(guarded(go4, seconds=10), lambda x: x))
         else:
             raise ValueError(o)
-    return {"results": out, "chains": {k: {"sig_size": v["root_bits"] // 8, "leaf_size": v["leaf_bits"] // 8, "n": str(v["n"]), "e": v["e"]}
+    return {"results": out, "generated": generated, "chains": {k: {"sig_size": v["root_bits"] // 8, "leaf_size": v["leaf_bits"] // 8, "n": str(v["n"]), "e": v["e"]}
                                        for k, v in pool.items()}}
 
 
